@@ -468,3 +468,84 @@ theorem infoKV_rt : ∀ (kv : List (String × Info)), goodInfoKV kv → deserInf
 end
 
 end Pack
+
+namespace Pack
+
+/-! ### bytes payload -/
+
+theorem length_toBytesLE (n v : Nat) : (toBytesLE n v).length = n := by
+  induction n generalizing v with
+  | zero => rfl
+  | succ n ih => simp [toBytesLE, ih]
+
+theorem fromBytesLE_toBytesLE (n v : Nat) : fromBytesLE (toBytesLE n v) = v % 256 ^ n := by
+  induction n generalizing v with
+  | zero => simp [toBytesLE, fromBytesLE, Nat.mod_one]
+  | succ n ih =>
+    have := ih (v / 256)
+    simp only [fromBytesLE] at this
+    simp only [toBytesLE, fromBytesLE, List.foldr_cons, this]
+    rw [Nat.pow_succ, Nat.mul_comm (256 ^ n) 256, Nat.mod_mul]
+
+theorem pow8 (n : Nat) : ((256 ^ n : Nat) : Int) = (2 : Int) ^ (8 * n) := by
+  have : (256 : Nat) = 2 ^ 8 := by decide
+  rw [this, ← Nat.pow_mul]
+  simp
+
+/-- one item: reading back what was stored gives the value, for every value the dtype holds -/
+theorem decode_encode_int (t : IntType) (z : Int) (h : t.holds z) : decodeInt t (encodeInt t z) = z := by
+  have hM : (0 : Int) < (2 : Int) ^ (8 * t.size) := Int.pow_pos (by decide)
+  generalize hMd : (2 : Int) ^ (8 * t.size) = M at *
+  have hu : ((fromBytesLE (toBytesLE t.size (z % M).toNat) : Nat) : Int) = z % M := by
+    rw [fromBytesLE_toBytesLE]
+    have hnn : 0 ≤ z % M := Int.emod_nonneg z (by omega)
+    have hlt : z % M < M := Int.emod_lt_of_pos z hM
+    have hlt' : (z % M).toNat < 256 ^ t.size := by
+      have := pow8 t.size
+      rw [hMd] at this
+      omega
+    rw [Nat.mod_eq_of_lt hlt']
+    omega
+  simp only [decodeInt, encodeInt, hMd, hu]
+  unfold IntType.holds at h
+  rw [hMd] at h
+  cases hs : t.signed
+  · simp only [hs, Bool.false_eq_true, if_false, false_and] at h ⊢
+    exact Int.emod_eq_of_lt h.1 h.2
+  · simp only [hs, if_true, true_and] at h ⊢
+    by_cases hz : 0 ≤ z
+    · have e : z % M = z := Int.emod_eq_of_lt hz (by omega)
+      rw [e]
+      have : ¬ (M ≤ 2 * z) := by omega
+      simp [this]
+    · have e : z % M = z + M := by
+        have h1 : (z + M) % M = z % M := Eq.symm Int.emod_eq_add_self_emod
+        rw [← h1]
+        exact Int.emod_eq_of_lt (by omega) (by omega)
+      rw [e]
+      have : M ≤ 2 * (z + M) := by omega
+      simp only [this, if_true]
+      omega
+
+theorem chunks_flatMap_roundtrip (size : Nat) (enc : α → List β) (dec : List β → α) (l : List α)
+    (hlen : ∀ a, (enc a).length = size) (hrt : ∀ a ∈ l, dec (enc a) = a) :
+    (chunksN size l.length (l.flatMap enc)).map dec = l := by
+  induction l with
+  | nil => rfl
+  | cons a t ih =>
+    simp only [List.flatMap_cons, List.length_cons, chunksN, List.map_cons]
+    rw [List.take_left' (hlen a), List.drop_left' (hlen a), hrt a (by simp), ih (fun b hb => hrt b (by simp [hb]))]
+
+/-- `np.frombuffer(arr.tobytes(), dtype)` gives the array back: integer-like dtypes (bool, signed and unsigned
+    of any item size, two's complement, little endian) -/
+theorem bytes_roundtrip_int (t : IntType) (data : List Int) (h : ∀ z ∈ data, t.holds z) :
+    frombufferInt t (tobytesInt t data) data.length = data :=
+  chunks_flatMap_roundtrip t.size (encodeInt t) (decodeInt t) data (fun z => length_toBytesLE _ _)
+    (fun z hz => decode_encode_int t z (h z hz))
+
+/-- … and floating dtypes, given that IEEE decoding inverts encoding on representable values -/
+theorem bytes_roundtrip_float (c : FloatCodec) (data : List Rat) (h : ∀ q ∈ data, c.representable q) :
+    frombufferFloat c (tobytesFloat c data) data.length = data :=
+  chunks_flatMap_roundtrip c.size c.enc c.dec data c.len (fun q hq => c.rt q (h q hq))
+
+end Pack
